@@ -3063,7 +3063,8 @@ class ModuleGen(object):
                 'namespace PyGen.%s' % spec['module'], '']
         for m2, (gm, names) in sorted(getattr(self, 'opened', {}).items()):   # (w5-codersrc) imported constants
             head.insert(head.index('import BufrModel.Gen.PyPrelude') + 1, 'import %s' % gm)
-            head.insert(len(head) - 1, 'open PyGen.%s (%s)' % (m2, ' '.join(lean_ident(n) for n in names)))
+            if names:
+                head.insert(len(head) - 1, 'open PyGen.%s (%s)' % (m2, ' '.join(lean_ident(n) for n in names)))
         body = []
         for name in self.const_order:
             body.append(self.const_text[name])
